@@ -70,6 +70,7 @@ func (cr *clRun) electedAtColdStart(addr string) {
 	}
 	cr.res.stat("cold_start_elections", 1)
 	cr.coldStarts++
+	cr.electedAddrs = append(cr.electedAddrs, addr)
 	if cr.abortedWO[addr] {
 		cr.halfRebuiltElections = append(cr.halfRebuiltElections, cr.coldStarts)
 		cr.res.stat("elected_after_interrupted_rebuild", 1)
@@ -762,6 +763,9 @@ func (cr *clRun) deepChecks(when string, promoted string) {
 			} else if w := cr.ackedByMinorityOfRF(bad); w != nil {
 				clause += "/write-held-by-minority-of-rf"
 				why += cr.d26Note(w)
+			} else if w, f, e := cr.electedCountingFailedWrite(bad); w != nil {
+				clause += "/elected-replica-counted-failed-write"
+				why += cr.d31Note(w, f, e)
 			} else if w := cr.punchedThenRebuilt(rn.addr, bad); w != nil {
 				clause += "/punched-snapshot-not-resynced"
 				why += cr.d28Note(w, rn.name)
